@@ -307,7 +307,7 @@ def run(ctx: lib.Ctx) -> None:
         histories.append((ops, [ha, hb, hc], None))
     histories.append(([('resolve', ref(hc, rng, True)), ('resolve', [[ref(hb, rng, True)]])], [ha, hb, hc], {hc: c, hb: b, ha: a}))
     histories.append(([('resolve', ref(hc, rng, True))], [ha, hb, hc], {hc: c, hb: b}))
-    for _ in range(ctx.n(260, 2500)):
+    for _ in range(ctx.n(220, 2500)):
         ops, probes = gen_history(rng, names)
         preset = None
         if rng.random() < 0.12:   # the same registrations handed over through the constructor
@@ -366,7 +366,7 @@ def run(ctx: lib.Ctx) -> None:
     eval_error = None
     try:
         bad = ctx.coq_mismatches('hist', IMPORTS, 'chk', 'chk_eqb', 'hist', 'list (rres node) * list (option node)', cases,
-                                 prelude=PRELUDE, shard=ctx.n(45, 120))
+                                 prelude=PRELUDE, shard=max(30, min(120, -(-len(cases) // lib.n_jobs()))))
     except lib.InternalError as e:   # never crash on what a modified implementation produced
         bad, eval_error = [], str(e)[-1500:]
 
